@@ -167,7 +167,14 @@ func (mv *MessageView) SnapshotResponse(res *http.Response) error {
 		mv.chunked = res.TransferEncoding[tec-1] == "chunked"
 		fmt.Fprintf(buf, "Transfer-Encoding: %s\r\n", strings.Join(res.TransferEncoding, ", "))
 	}
-	if !mv.chunked && res.ContentLength >= 0 {
+	if res.StatusCode/100 == 1 || res.StatusCode == http.StatusNoContent || res.StatusCode == http.StatusNotModified {
+		// These never have a body: net/http reports the length 0 whatever the
+		// header says. A 304 may state the length of the representation; a 204
+		// must not have the header at all.
+		if cl := res.Header.Get("Content-Length"); cl != "" && !mv.chunked {
+			fmt.Fprintf(buf, "Content-Length: %s\r\n", cl)
+		}
+	} else if !mv.chunked && res.ContentLength >= 0 {
 		fmt.Fprintf(buf, "Content-Length: %d\r\n", res.ContentLength)
 	}
 
